@@ -9,11 +9,11 @@ RULE = ('event traces for the real SocketDriver (built by its own __init__ with 
         'each event is one call of _sendIfMsgs() or _read() together with what takeMsg()/send()/recv() answer. Corpus (finding witnesses) + '
         'outgoing: texts with 1/2/3/4-byte characters x every send script of <=3 calls over {1,2,3,5 bytes, EAGAIN} then a drain + '
         'incoming: every partition of short streams (<=9 bytes quick, <=12 thorough) containing CR LF, multi-byte characters, invalid UTF-8, '
-        'blank and malformed lines + seeded random mixed traces (mostly valid IRC traffic) + hostile traces (random bytes, surrogates, k=0, '
+        'blank and malformed lines + streams with one line of 513..3000 bytes (tagged and untagged, multi-byte text; a few of 6000..8700 bytes) cut so that more than 512 bytes stay unterminated between two reads, in regular small chunks, at random + seeded random mixed traces (mostly valid IRC traffic) + hostile traces (random bytes, surrogates, k=0, '
         'error bursts beyond the EAGAIN limit, closed socket) + long send-only traces with hundreds of EAGAINs in short runs, each run followed by a 1..3-byte write (slow silent server).  Every trace runs on the implementation and on the extracted model; the '
         'driver attributes are diffed after every event, the observations (wire bytes, taken text, received bytes, fed messages) at the end. '
         'The property is evaluated directly: wire bytes must be a prefix of (equal to, once the buffer is empty) the UTF-8 of the taken '
-        'messages; a socket that reported no error and never more than 120 EAGAINs in a row must still be connected; fed messages must equal those of a fresh driver fed the same bytes one at a time.  str.encode / decode(replace) / strip '
+        'messages; a socket that reported no error and never more than 120 EAGAINs in a row must still be connected; fed messages must equal those of a fresh driver fed the same bytes one at a time and of one fed them 1024 at a time.  str.encode / decode(replace) / strip '
         'models are diffed against CPython on boundary alphabets.  non-trivial = distinct trace that moved bytes')
 TRUSTED = ['IrcMsg(line) (subject of C05) enters the theorems as an arbitrary function parse : str -> res M; the executable instance uses the '
            'table line -> exception that the harness computes with the real constructor',
@@ -29,7 +29,7 @@ ASSUMPTIONS = ['world.testing/log.testing off', 'charade not importable (checked
                'send() returns 0..len(data) or raises socket.error; recv() returns <= 1024 bytes']
 LEVEL_TEXT = ('Coq theorems over an executable Gallina model of SocketDriver._sendIfMsgs/_handleSocketError/_read + drivers.parseMsg: for every event trace '
               '(any interleaving of sends, reads, partial writes, EAGAIN, errors, timeouts) the messages fed to the bot are a function of the concatenated '
-              'received bytes alone (hence equal for any two partitions of a stream, whatever the decoder and parser), the unparsed remainder is the last piece; a line the '
+              'received bytes alone (hence equal for any two partitions of a stream, whatever the decoder and parser), the unparsed remainder is the last piece, with no bound on the length of a line or of that remainder (the statements of _read between recv() and the per-line loop are pinned one by one); a line the '
               'parser rejects with a caught exception is skipped and, if the parser raises nothing else, no byte stream can end the driver; '
               'the outgoing invariant wire ++ outbuffer = utf8(text of the messages that entered the buffer) holds on EVERY trace (finding C11.F11 repaired: the '
               'out-buffer holds the unsent bytes), that text being all text taken from the queue unless a last batch had no UTF-8 encoding (its exception ends the '
@@ -42,6 +42,7 @@ TECHNIQUE = 'Coq proof (trace invariants by induction, list-splitting lemmas) + 
 EXPLANATION = 'C11: model of the SocketDriver byte-stream paths; theorems in coq/C11/Props.v'
 
 BIG = 1 << 20
+RECV_MAX = 1024              # _read calls conn.recv(1024)
 EAGAIN_RUN_TOLERATED = 120   # 'self.eagains > 120' in _handleSocketError: up to 120 consecutive EAGAINs must be survived
 EXN_CODE = {v: k for k, v in wire.EXN.items()}
 _mods = {}
@@ -291,10 +292,25 @@ def direct_oracle(events):
     ref_events = [{'t': 'read', 'r': ['data', bytes([b]).hex()], 'msgs': [], 's': ['sent', 0]} for b in data]
     _, rfinal, (rd, rirc, rconn, rdead) = run_impl(ref_events)
     if final[3] != rfinal[3]:
-        return ('messages fed to the bot %r differ from those of the same bytes read one at a time %r' % (final[3], rfinal[3]))
+        return ('messages fed to the bot %s differ from those of the same bytes read one at a time %s' % (brief(final[3]), brief(rfinal[3])))
     if not dead and not rdead and bytes(d.inbuffer) != bytes(rd.inbuffer):
         return 'unparsed remainder %r differs from that of the same bytes read one at a time %r' % (bytes(d.inbuffer), bytes(rd.inbuffer))
+    # ... and in the largest chunks recv(1024) can return (a long line arrives whole or in few pieces)
+    if len(data) > 1:
+        big_events = [{'t': 'read', 'r': ['data', data[i:i + RECV_MAX].hex()], 'msgs': [], 's': ['sent', 0]}
+                      for i in range(0, len(data), RECV_MAX)]
+        _, bfinal, (bd, birc, bconn, bdead) = run_impl(big_events)
+        if final[3] != bfinal[3]:
+            return ('messages fed to the bot %s differ from those of the same bytes read %d at a time %s'
+                    % (brief(final[3]), RECV_MAX, brief(bfinal[3])))
+        if not dead and not bdead and bytes(d.inbuffer) != bytes(bd.inbuffer):
+            return 'unparsed remainder (%d bytes) differs from that of the same bytes read %d at a time (%d bytes)' % (
+                len(d.inbuffer), RECV_MAX, len(bd.inbuffer))
     return None
+
+
+def brief(msgs):
+    return '[' + ', '.join(repr(m) if len(m) <= 60 else '<%d chars: %r...%r>' % (len(m), m[:24], m[-16:]) for m in msgs) + ']'
 
 
 def moved(events):
@@ -496,6 +512,71 @@ def gen_eagain_isolated(rng=None):
     return evs + DRAIN
 
 
+def long_line(rng, n, tagged):
+    """one IRC line of exactly n bytes (no LF), longer than the 512 bytes of RFC 1459 when n says so: IRCv3 tags allow
+    8191 bytes of tags + 512 of message.  Multi-byte characters all along, so that cuts fall inside them."""
+    fill = ['caf\xe9', '\u20ac5', 'na\xefve', '\U0001f600', 'hello', 'world', 'x' * 17, '\u3042\u3044']
+    if tagged:
+        head = '@time=2023-04-05T06:07:08.900Z;msgid=abc123;account=caf\xe9;+draft/reply='
+        tail = ' :nick!user@host PRIVMSG #chan :tagged h\xe9llo \u20ac\r'
+        sep = '\\s'
+    else:
+        head = ':nick!user@host PRIVMSG #chan :'
+        tail = ' end \u20ac\r'
+        sep = ' '
+    body = ''
+    while len((head + body + tail).encode()) < n:
+        body += (sep if body else '') + (rng.choice(fill) if rng else fill[len(body) % len(fill)])
+    raw = (head + body).encode()[:n - len(tail.encode())]
+    raw = raw.decode('utf-8', 'ignore').encode()             # do not leave half a character before the tail
+    raw += b'z' * (n - len(tail.encode()) - len(raw))
+    return raw + tail.encode()
+
+
+def cut_stream(stream, cuts):
+    cuts = sorted(set(c for c in cuts if 0 < c < len(stream)))
+    pieces = [stream[i:j] for i, j in zip([0] + cuts, cuts + [len(stream)])]
+    out = []
+    for p in pieces:                                         # recv(1024) never returns more
+        out += [p[i:i + RECV_MAX] for i in range(0, len(p), RECV_MAX)]
+    return [ev_read(data(c)) for c in out]
+
+
+def gen_long_lines(rng=None):
+    """a stream with one line longer than 512 bytes between ordinary lines, cut in many ways -- in particular so that more
+    than 512 bytes stay unterminated in the buffer between two reads (seeded change C11_8).  rng=None: canonical corpus traces"""
+    if rng is None:
+        n, tagged = 840, True
+    else:
+        n, tagged = rng.choice([(rng.randint(513, 700), False), (rng.randint(600, 1500), True), (rng.randint(1500, 3000), True),
+                                (rng.randint(513, 1100), rng.random() < 0.5)])
+    line = long_line(rng, n, tagged)
+    stream = b'PING :a\r\n' + b':srv 001 me :h\xc3\xa9\r\n' + line + b'\n' + b':n!u@h PRIVMSG #c :after \xe2\x82\xac\r\n' + b'PING :z\r\n'
+    start = stream.index(line)
+    if rng is None:
+        # the whole stream at once; a cut 700 bytes into the long line; a cut just before its LF; cuts every 100 bytes
+        return [cut_stream(stream, []), cut_stream(stream, [start + 700]), cut_stream(stream, [start + len(line)]),
+                cut_stream(stream, list(range(100, len(stream), 100)))]
+    k = rng.random()
+    if k < 0.35:      # one late cut inside the long line (possibly inside a multi-byte character)
+        cuts = [start + rng.randint(513, len(line))]
+    elif k < 0.6:     # a few cuts, at least one late
+        cuts = [start + rng.randint(513, len(line))] + [rng.randrange(1, len(stream)) for _ in range(rng.randint(1, 5))]
+    elif k < 0.8:     # regular small chunks
+        step = rng.choice([7, 64, 100, 255, 511, 512, 513])
+        cuts = list(range(step, len(stream), step))
+    else:             # arbitrary
+        cuts = [rng.randrange(1, len(stream)) for _ in range(rng.randint(0, 12))]
+    return [cut_stream(stream, cuts)]
+
+
+def gen_huge_line(rng):
+    """a tagged line near the IRCv3 limit (8191 bytes of tags + 512), delivered in 1024-byte reads and in odd pieces"""
+    line = long_line(rng, rng.randint(6000, 8700), True)
+    stream = b'PING :a\r\n' + line + b'\nPING :z\r\n'
+    return cut_stream(stream, [rng.randrange(1, len(stream)) for _ in range(rng.randint(0, 6))])
+
+
 # ---------------------------------------------------------------- primitives
 def check_primitives(ctx):
     m = mods()
@@ -536,13 +617,15 @@ def check_primitives(ctx):
 def run(ctx):
     mods()
     rng = ctx.rng
-    cases = [(t, 'corpus') for t in CORPUS] + [(gen_eagain_isolated(), 'corpus')]   # seeded change C11_7: EAGAIN counter never reset by send
+    cases = [(t, 'corpus') for t in CORPUS] + [(gen_eagain_isolated(), 'corpus')] + [(t, 'corpus') for t in gen_long_lines()]   # seeded change C11_7: EAGAIN counter never reset by send
     cases += [(t, 'out-exhaustive') for t in gen_out_exhaustive(ctx.scale)]
     cases += [(t, 'in-partitions') for t in gen_in_exhaustive(ctx.scale)]
     ctx.notes.append('incoming: all partitions of %d streams; outgoing: all send scripts of <=%d calls over 8 texts'
                      % (len(STREAMS) + (len(STREAMS_THOROUGH) if ctx.scale > 1 else 0), 3 if ctx.scale == 1 else 4))
     cases += [(gen_eagain_burst(rng, n), 'eagain-burst') for n in (119, 120, 121, 122, 123, 130)]
     cases += [(gen_eagain_isolated(rng), 'eagain-isolated') for _ in range(ctx.n(6))]
+    cases += [(t, 'long-line') for _ in range(ctx.n(40)) for t in gen_long_lines(rng)]
+    cases += [(gen_huge_line(rng), 'huge-line') for _ in range(ctx.n(3))]
     cases += [(gen_trace(rng), 'mixed') for _ in range(ctx.n(2500))]
     cases += [(gen_trace(rng, True), 'hostile') for _ in range(ctx.n(1200))]
     outs = ctx.model([w_trace(t) for t, _ in cases])
